@@ -29,6 +29,8 @@ def parse_argspec(x):
         return A('o', delta)
     if x == '[nopre':
         return A('o', delta, pre=False)
+    if x == '{nopre':
+        return A('m', delta, pre=False)
     if x in ('*', 's'):
         return A('s', delta)
     if x[0] == 't' and len(x) == 2:
@@ -59,7 +61,9 @@ RAW = {
                 'q': [('{', 'math')], 'z': [], '\\': ['*', '[nopre'], 'v': ['v'], 'r': ['r()'], 'd': ['d<>'],
                 'c': ['t+'], 'M': ['m', 'o', 's'],
                 # one argument slot with a declared mode followed by slots without (user-defined \annot{text}{..})
-                'A': [('{', 'text'), '{'], 'S': [('{', 'math'), '[', '{']},
+                'A': [('{', 'text'), '{'], 'S': [('{', 'math'), '[', '{'],
+                # second mandatory argument must follow without whitespace (allow_pre_space=False on an expression)
+                'N': ['{', '{nopre']},
         envs={'e': dict(args=['[', '{'], body='nodes'), 'q': dict(args=[], body='math'),
               'p': dict(args=['*'], body='nodes')},
         specials={'~': [], '--': [], '---': [], '&': [], '!': ['{']},
@@ -67,7 +71,9 @@ RAW = {
     # only for checks that drive the real parser alone (kinds not modelled in Parser.tla)
     'kext': dict(
         macros={'tens': ['e{^_}', '{'], 'emb': ['e{_^|}'], 'any': ['AnyDelimited'], 'anyo': ['AnyDelimitedOptional', '{'],
-                'm': ['{'], 'v': ['v'], 's': ['*', 't+', '{']},
+                'm': ['{'], 'v': ['v'], 's': ['*', 't+', '{'],
+                # required and optional delimited arguments with the SAME delimiters (distinct entries of the shared parser cache)
+                'rp': ['r()'], 'dp': ['d()'], 'rs': ['r[]'], 'os': ['[']},
         envs={'e': dict(args=['e{^_}'], body='nodes')},
         specials={'~': []},
         unknown_macro=True, unknown_env=True),
